@@ -35,16 +35,17 @@ fn sorted(mut v: Vec<LineRange>) -> Vec<LineRange> {
 
 /// same files (with >= 1 entry) in order, same hashes, same multiset of ranges per entry, same metadata
 fn equivalent(a: &AuthorshipLog, b: &AuthorshipLog) -> bool {
-    let fa: Vec<&FileAttestation> = a.attestations.iter().filter(|f| !f.entries.is_empty()).collect();
+    let fa: Vec<&FileAttestation> = a.attestations.iter().filter(|f| f.entries.iter().any(|e| !e.line_ranges.is_empty())).collect();
     let fb: Vec<&FileAttestation> = b.attestations.iter().collect();
     if fa.len() != fb.len() {
         return false;
     }
     for (x, y) in fa.iter().zip(fb.iter()) {
-        if x.file_path != y.file_path || x.entries.len() != y.entries.len() {
+        let live: Vec<&AttestationEntry> = x.entries.iter().filter(|e| !e.line_ranges.is_empty()).collect();
+        if x.file_path != y.file_path || live.len() != y.entries.len() {
             return false;
         }
-        for (u, w) in x.entries.iter().zip(y.entries.iter()) {
+        for (u, w) in live.iter().zip(y.entries.iter()) {
             if u.hash != w.hash || sorted(u.line_ranges.clone()) != sorted(w.line_ranges.clone()) {
                 return false;
             }
@@ -79,6 +80,9 @@ fn reference_attestations(log: &AuthorshipLog) -> Vec<String> {
             }
             out.push('\n');
             for e in &f.entries {
+                if e.line_ranges.is_empty() {
+                    continue;
+                }
                 out.push_str("  ");
                 out.push_str(&e.hash);
                 out.push(' ');
